@@ -124,6 +124,35 @@ def cache_stress(rep, rounds, threads, ops=6, seed_off=0, label="cache-stress"):
     return r
 
 
+def cache_sched(rep, scenarios, families, seed_off=0, label="cache-sched"):
+    """2-3 user threads + a maintenance thread under the cooperative scheduler (fvctl; random p=0.3, PCT d=3, d=5),
+    scenario families aimed at the overlaps the properties name; linearized by TLC (CacheStressTrace).
+    Runs the scheduler calls stuck / step-limited are inconclusive: counted, never judged."""
+    wd = C.workdir()
+    out = os.path.join(wd, "%s_%d.ndjson" % (label, time.time_ns()))
+    st = C.run_fv(["cache-sched", "--seed", rep.seed + seed_off, "--scenarios", scenarios, "--families", ",".join(families),
+                   "--strategies", "random,pct3,pct5", "--out", out], timeout=3000, binary=BIN)
+    rep.extra.setdefault("driver_stats", []).append(dict(st, driver=label))
+    hs = C.split_histories(out)
+    keep = [h for h in hs if not any('"k":"inconclusive"' in x for x in h[-2:])]
+    if len(keep) < len(hs):
+        rep.inconclusive.append({"driver": label, "runs_without_verdict": len(hs) - len(keep), "of": len(hs)})
+        with open(out, "w") as f:
+            f.write("\n".join("\n".join(h) for h in keep) + "\n")
+    if len(keep) * 2 < len(hs):
+        raise C.ToolError("%s: more than half of the scheduled runs were inconclusive (%d of %d)" % (label, len(hs) - len(keep), len(hs)))
+    r = validate(rep, out, label, module="CacheStressTrace", batch_records=1500)
+    os.unlink(out)
+    return r
+
+
+SCHED_ASSUME = [
+    "cache-sched: sequential consistency at the yield points (every atomic / lock step of fibre's hybrid locks and channels); the policies' "
+    "and the timer wheel's parking_lot mutexes and the std atomics of the metrics are not yield points (no yield happens while they are held)",
+    "cache-sched: janitor and notifier threads are not managed; the janitor is configured to do nothing, so only the explicit "
+    "run_maintenance() calls of the maintenance thread evict or expire"]
+
+
 def cache_mc(rep, tier):
     # bounded cache with TTL + grace window; unbounded cache with TTL + idle timeout
     for base in ("MC_CacheA", "MC_CacheA_tti"):
@@ -150,7 +179,9 @@ def C11(rep):
     # compute / entry atomicity under real concurrency (OS-chosen interleavings)
     cache_stress(rep, n(rep.tier, 60, 600), 3, ops=6, seed_off=11)
     cache_stress(rep, n(rep.tier, 30, 300), 4, ops=5, seed_off=12, label="cache-stress-4")
-    rep.assumptions += ASSUME + [
+    # ... and under the cooperative scheduler: read-modify-write races, clear vs insert
+    cache_sched(rep, n(rep.tier, 240, 3000), ["rmw", "rmw", "clear-ins"], seed_off=13)
+    rep.assumptions += ASSUME + SCHED_ASSUME + [
         "cache-stress interleavings are chosen by the OS scheduler (threads released by a barrier), not enumerated; the controller-driven "
         "schedules of the concurrent cache scenarios belong to the main harness"]
 
@@ -165,13 +196,17 @@ def C13(rep):
     cache_mc(rep, rep.tier)
     cache_seq(rep, ["cap", "cap", "mix"], n(rep.tier, 120, 1200), 60, seed_off=202, label="cache-seq-cap")
     cache_seq(rep, ["burst"], n(rep.tier, 3, 16), 1, seed_off=203, label="cache-seq-burst")
-    rep.assumptions += ASSUME
+    # the overlaps C13 names: remove vs eviction, clear vs insert, overwrite before the policy learnt the first write
+    cache_sched(rep, n(rep.tier, 300, 4000), ["rm-evict", "clear-ins", "overwrite"], seed_off=204)
+    rep.assumptions += ASSUME + SCHED_ASSUME
 
 
 def C16(rep):
     cache_mc(rep, rep.tier)
     cache_seq(rep, ["cap", "ttl", "mix"], n(rep.tier, 120, 1200), 60, seed_off=303, label="cache-seq-listener")
-    rep.assumptions += ASSUME
+    # who notifies when a user removal races an eviction / an expiry of the same key
+    cache_sched(rep, n(rep.tier, 300, 4000), ["rm-evict", "inval-exp", "inval-exp"], seed_off=304)
+    rep.assumptions += ASSUME + SCHED_ASSUME
 
 
 def C17(rep):
